@@ -157,6 +157,14 @@ func c02SchedSpecs(quick bool) []*EngSpec {
 	}
 	specs = append(specs, &EngSpec{Name: "unlock-vs-key-manager-recycling", Cfg: cfg, Fine: true, Setup: []Step{C(withEF(L(9, 1, 5, 0, 30, 0, 0), efZeroAof))},
 		Threads: [][]Step{{C(U(1, 1, 6))}, recycle}})
+	// a short-lived key (expiry 0: granted and freed at once) takes and leaves the key slot while the holder of a key
+	// in the slow key table unlocks (and, in the second scenario, while another holder of that key unlocks too);
+	// key 2 owned the slot when key 1 was created and has expired and been reclaimed since
+	specs = append(specs,
+		&EngSpec{Name: "slot-taken-and-freed-vs-slow-unlock", Cfg: cfg, Fine: true, Setup: []Step{C(L(9, 2, 3, 0, 1, 0, 0)), C(L(8, 1, 1, 0, 20, 0, 0))}, T0: 4000 * ms,
+			Threads: [][]Step{{C(L(1, 2, 3, 0, 0, 0, 0))}, {C(U(2, 1, 1))}}},
+		&EngSpec{Name: "slot-taken-and-freed-vs-two-slow-unlocks", Cfg: cfg, Fine: true, Setup: []Step{C(L(9, 2, 3, 0, 1, 0, 0)), C(L(8, 1, 1, 0, 20, 1, 0)), C(L(7, 1, 2, 0, 20, 1, 0))}, T0: 4000 * ms,
+			Threads: [][]Step{{C(L(1, 2, 3, 0, 0, 0, 0))}, {C(U(2, 1, 1))}, {C(U(3, 1, 2))}}})
 	if !quick {
 		specs = append(specs,
 			&EngSpec{Name: "unlock-cancel-newcomer", Cfg: cfg, Fine: true, Setup: []Step{C(L(9, 1, 1, 0, 10, 0, 0)), C(L(8, 1, 2, 5, 10, 0, 0))},
